@@ -115,7 +115,10 @@ pub fn s_reads<const WHICH: u8>(p: &mut Pool) {
                     chk!(false, "s13: a version lookup does not fail on well-formed rows");
                 }
             }
-            cov!(f != NR && first_match(&s, s.oid, key, by_parent) != NR, "s09.cov: both clients own a version with the queried id");
+            if WHICH == 2 {
+                // (by id this cannot happen: version_id is the table's primary key)
+                cov!(f != NR && first_match(&s, s.oid, key, by_parent) != NR, "s09.cov: both clients own a version with the queried id");
+            }
         }
         // dropped without commit
     }
